@@ -1,35 +1,78 @@
 import Lean
 /-!
-Axiom audit: `lake env lean --run Audit.lean <Module> [<Module> ...]`
+Axiom audit: `lake env .lake/build/bin/audit <Module> [<Module> ...]`
 For every theorem declared in each named module (property theorems live in
 `IofloModel.Props.Cnn`) print one line
   THEOREM <module> <name> AXIOMS <a1> <a2> ...
 computed by walking the kernel terms in the compiled environment (own traversal,
 independent of `#print axioms`).  Obligations are counted from this output.
+
+The axioms of a constant are memoised.  Definitions and theorems cannot be cyclic in the
+kernel environment; the only cycles are inside an inductive block (type ↔ constructors ↔
+recursors), which is therefore treated as one unit.
 -/
 open Lean
 
-partial def collect (env : Environment) (c : Name) : StateM (NameSet × NameSet) Unit := do
-  let (seen, _) ← get
-  if seen.contains c then return
-  modify fun (s, a) => (s.insert c, a)
-  let go (e : Expr) : StateM (NameSet × NameSet) Unit := e.getUsedConstants.forM (collect env)
+abbrev M := StateM (Std.HashMap Name NameSet)
+
+def union (a b : NameSet) : NameSet := b.foldl (fun s n => s.insert n) a
+
+/-- names of an inductive block: the mutual inductives, their constructors and recursors -/
+def blockOf (env : Environment) (c : Name) : Option (List Name) :=
+  let ofInd (v : InductiveVal) : List Name :=
+    v.all.foldl (fun acc i =>
+      match env.find? i with
+      | some (.inductInfo iv) => acc ++ [i] ++ iv.ctors ++ [mkRecName i]
+      | _ => acc ++ [i]) []
   match env.find? c with
-  | some (.axiomInfo v)  => modify (fun (s, a) => (s, a.insert c)); go v.type
-  | some (.defnInfo v)   => go v.type *> go v.value
-  | some (.thmInfo v)    => go v.type *> go v.value
-  | some (.opaqueInfo v) => go v.type *> go v.value
-  | some (.quotInfo _)   => pure ()
-  | some (.ctorInfo v)   => go v.type
-  | some (.recInfo v)    => go v.type
-  | some (.inductInfo v) => go v.type *> v.ctors.forM (collect env)
-  | none                 => pure ()
+  | some (.inductInfo v) => some (ofInd v)
+  | some (.ctorInfo v) =>
+    match env.find? v.induct with
+    | some (.inductInfo iv) => some (ofInd iv)
+    | _ => none
+  | some (.recInfo v) =>
+    match v.all.head? >>= env.find? with
+    | some (.inductInfo iv) => some (ofInd iv)
+    | _ => none
+  | _ => none
+
+partial def axiomsOf (env : Environment) (c : Name) : M NameSet := do
+  if let some r := (← get)[c]? then return r
+  match blockOf env c with
+  | some block =>
+    -- avoid re-entry while the block is being computed
+    for b in block do modify (·.insert b {})
+    let mut acc : NameSet := {}
+    for b in block do
+      let ty := match env.find? b with
+        | some ci => some ci.type
+        | none => none
+      if let some ty := ty then
+        for u in ty.getUsedConstants do
+          if !block.contains u then acc := union acc (← axiomsOf env u)
+    for b in block do modify (·.insert b acc)
+    return acc
+  | none =>
+    let exprs : List Expr := match env.find? c with
+      | some (.axiomInfo v)  => [v.type]
+      | some (.defnInfo v)   => [v.type, v.value]
+      | some (.thmInfo v)    => [v.type, v.value]
+      | some (.opaqueInfo v) => [v.type, v.value]
+      | _ => []
+    let mut acc : NameSet := {}
+    if let some (.axiomInfo _) := env.find? c then acc := acc.insert c
+    for e in exprs do
+      for u in e.getUsedConstants do
+        acc := union acc (← axiomsOf env u)
+    modify (·.insert c acc)
+    return acc
 
 def main (args : List String) : IO UInt32 := do
   initSearchPath (← findSysroot)
   let mods := args.map (fun s => s.toName)
   let env ← importModules (mods.toArray.map (fun m => {module := m})) {} (loadExts := false)
   let mut bad : UInt32 := 0
+  let mut memo : Std.HashMap Name NameSet := {}
   for m in mods do
     match env.getModuleIdx? m with
     | none => IO.println s!"NOMODULE {m}"; bad := 2
@@ -39,7 +82,8 @@ def main (args : List String) : IO UInt32 := do
         if n.isInternal then continue
         match env.find? n with
         | some (.thmInfo _) =>
-          let ((), (_, axs)) := (collect env n).run ({}, {})
+          let (axs, memo') := (axiomsOf env n).run memo
+          memo := memo'
           let axs := (axs.toList.map toString).mergeSort (· ≤ ·)
           IO.println s!"THEOREM {m} {n} AXIOMS {" ".intercalate axs}"
         | _ => pure ()
